@@ -397,6 +397,40 @@ def voice_shape():
     return rows
 
 
+def _stmts(body):
+    """unparsed statements of a body, docstrings dropped"""
+    return [ast.unparse(x) for x in body
+            if not (isinstance(x, ast.Expr) and isinstance(x.value, ast.Constant) and isinstance(x.value.value, str))]
+
+
+def config_channel_shape():
+    """Config.channel's write branch (`if value is not None:`), Config._setValue, checkCanSetValue and getCapability:
+    the statements Model.config_channel_set / set_value / config_cap mirror"""
+    t = _parse(os.path.join(REPO, 'plugins', 'Config', 'plugin.py'))
+    f = find_def(t, 'channel', 'Config')
+    need([a.arg for a in f.args.args] == ['self', 'irc', 'msg', 'args', 'network', 'channels', 'group', 'value'], 'Config.channel signature changed')
+    branch = [x for x in f.body if isinstance(x, ast.If) and ast.unparse(x.test) == 'value is not None']
+    need(len(branch) == 1, 'Config.channel: no single `if value is not None:` branch')
+    w = branch[0].body
+    need(len(w) == 2 and isinstance(w[0], ast.For) and ast.unparse(w[0].target) == 'channel' and ast.unparse(w[0].iter) == 'channels'
+         and not w[0].orelse, 'Config.channel: the write branch is no longer one loop over the channels followed by the success reply')
+    loop = _stmts(w[0].body)
+    after = _stmts(w[1:])
+    sv = _stmts(find_def(t, '_setValue', 'Config').body)
+    ccf = find_def(t, 'checkCanSetValue')
+    cc = []
+    for x in ccf.body:
+        # the wording of the read-only message is not pinned, only that it aborts (Raise=True)
+        if isinstance(x, ast.If) and len(x.body) == 1 and isinstance(x.body[0], ast.Expr) and isinstance(x.body[0].value, ast.Call) \
+                and ast.unparse(x.body[0].value.func) == 'irc.error':
+            kws = sorted('%s=%s' % (k.arg, ast.unparse(k.value)) for k in x.body[0].value.keywords)
+            cc.append('if %s: irc.error(<text>, %s)' % (ast.unparse(x.test), ', '.join(kws)))
+        else:
+            cc += _stmts([x])
+    gc = _stmts(find_def(t, 'getCapability').body)
+    return loop + ['--'] + after + ['-- _setValue'] + sv + ['-- checkCanSetValue'] + cc + ['-- getCapability'] + gc
+
+
 @table('T01')
 def gen_T01():
     caps = default_caps()
@@ -410,6 +444,7 @@ def gen_T01():
     ncs = nocap_sites()
     argdep = argdep_functions()
     vrows = voice_shape()
+    ccs = config_channel_shape()
     out = 'Require Import Base.Wire.\n'
     out += 'Definition DEFAULT_CAPS : list str :=\n  %s.\n' % clist(cstr(c) for c in caps)
     out += 'Definition GATING : list str :=\n  %s.\n' % clist(cstr(c) for c in gating)
@@ -437,4 +472,6 @@ def gen_T01():
     out += 'Definition ARGDEP : list (str * str * str) :=\n  %s.\n' % clist('(%s, %s, %s)' % (cstr(a), cstr(b), cstr(c)) for a, b, c in argdep)
     out += '(* Channel._voice decision rows: outer test, inner test, statements *)\n'
     out += 'Definition VOICE_ROWS : list (str * str * str) :=\n  %s.\n' % clist('(%s, %s, %s)' % (cstr(a), cstr(b), cstr(c)) for a, b, c in vrows)
+    out += '(* Config.channel write loop, _setValue, checkCanSetValue, getCapability: unparsed statements *)\n'
+    out += 'Definition CONFIG_CHANNEL : list str :=\n  %s.\n' % clist('\n   ' + cstr(x) for x in ccs)
     return 'src/ircdb.py, src/commands.py, src/callbacks.py, plugins/*/**.py', out
